@@ -112,3 +112,5 @@ Proof.
   replace (4 * (a * a)) with (Rsqr (2 * a)) by (unfold Rsqr; ring). rewrite sqrt_Rsqr_abs.
   rewrite Rabs_mult, (Rabs_pos_eq 2) by lra. reflexivity.
 Qed.
+Lemma Rabs_le_inv x y : Rabs x <= y -> - y <= x <= y.
+Proof. unfold Rabs. destruct (Rcase_abs x); lra. Qed.
